@@ -716,6 +716,8 @@ func runC19(c *Ctx) {
 	// R15 (shared with C05.R1): an advertised extension is served by the file-system call it stands for
 	// R16 (shared with C06.R1): the VERSION and INIT packets carry (name, data) pairs — what HasExtension reports
 	c.withOnlyKeys("R1", "R16", []string{"sshFxVersionPacket", "sshFxInitPacket"}, func() { runC06(c) })
+	// R17 (= C08.O14): the extension list of INIT/VERSION is decoded by a loop that ends on the decoder's error
+	c.withOnlyKeys("Z14", "R17", []string{"recvVersion", "sshFxInitPacket", "sshFxVersionPacket"}, func() { runC20(c) })
 	// (C05 compares with package os on the posix builds only: the statvfs stub of the others answers op-unsupported)
 	if goos := goosOf(c.P.Cfg); goos != "windows" && goos != "plan9" {
 		c.withOnlyKeys("R1", "R15", []string{"sshFxpExtendedPacket"}, func() { runC05(c) })
